@@ -45,6 +45,7 @@ LeftoverProj(in, out) ==
 (* sequence operators stand for their elements.  What is left counts the packaging that is "part of the final      *)
 (* result"; a package that a projection throws away is not.  (Names never denote packages in the generated space; *)
 (* unknown calls keep everything inside them: an upper bound.)                                                    *)
+PKeyEq(k1, k2) == k1 = k2 \/ (k1.k \in {"int", "bool"} /\ k2.k \in {"int", "bool"} /\ k1.n = k2.n)     \* True == 1
 RECURSIVE ResTerm(_)
 ResTerm(e) ==
     CASE e.k \in {"tuple", "list"} -> [e EXCEPT !.a = [i \in 1..Len(e.a) |-> ResTerm(e.a[i])]]
@@ -52,9 +53,9 @@ ResTerm(e) ==
       [] e.k = "sub" ->
            LET v == ResTerm(e.a[1])  ix == e.a[2] IN
            IF v.k \in {"tuple", "list"} /\ ix.k = "int" /\ PyIndex(Len(v.a), ix.n) # 0 THEN v.a[PyIndex(Len(v.a), ix.n)]
-           ELSE IF v.k = "dict" /\ ix.k \in {"str", "int"} /\ \E i \in 1..(Len(v.a) \div 2) : v.a[2 * i - 1] = ix
-                THEN v.a[2 * (CHOOSE i \in 1..(Len(v.a) \div 2) : v.a[2 * i - 1] = ix /\
-                                  \A j \in (i + 1)..(Len(v.a) \div 2) : v.a[2 * j - 1] # ix)]
+           ELSE IF v.k = "dict" /\ ix.k \in {"str", "int"} /\ \E i \in 1..(Len(v.a) \div 2) : PKeyEq(v.a[2 * i - 1], ix)
+                THEN v.a[2 * (CHOOSE i \in 1..(Len(v.a) \div 2) : PKeyEq(v.a[2 * i - 1], ix) /\
+                                  \A j \in (i + 1)..(Len(v.a) \div 2) : ~PKeyEq(v.a[2 * j - 1], ix))]
            ELSE [e EXCEPT !.a = <<v, ix>>]
       [] e.k = "attr" ->
            LET v == ResTerm(e.a[1]) IN
